@@ -25,7 +25,7 @@ func genCase(t *rapid.T) Case {
 	sc := world.Script{K: k}
 	sc.MaxAsync = rapid.SampledFrom([]int{0, 0, 1, 2, k, max(1, k-1)}).Draw(t, "maxasync")
 	n := rapid.IntRange(3, 40).Draw(t, "nsteps")
-	ops := []string{"publish", "publish", "announce", "announce", "announce", "sync", "hold", "open", "failannounce", "badannounce", "entries", "rmhandler"}
+	ops := []string{"publish", "publish", "announce", "announce", "announce", "sync", "hold", "open", "failannounce", "badannounce", "entries", "rmhandler", "tick"}
 	for i := 0; i < n; i++ {
 		st := world.Step{Op: rapid.SampledFrom(ops).Draw(t, "op"), P: rapid.IntRange(0, k-1).Draw(t, "p"), N: rapid.IntRange(1, 3).Draw(t, "n")}
 		sc.Steps = append(sc.Steps, st)
@@ -108,6 +108,12 @@ func runCase(t *testing.T) func(Case) pbt.Result {
 				// latest-sync, so the observations before and after it are judged as one history
 				if len(e.Marks[pi]) > 0 {
 					kinds["handler-removed"]++
+				}
+				if e.Ticks > 0 {
+					kinds["idle-ttl-passed"]++
+				}
+				if e.TicksDuringSync > 0 {
+					kinds["idle-ttl-passed-during-sync"]++
 				}
 				final := world.Mark{Hooks: len(e.S.Hooks), Events: len(evs), Announced: len(e.Announced[pi]), Ops: len(e.Ops), Latest: e.S.Latest(p.ID)}
 				if v := checkEpoch(e, pi, p, pos, world.Mark{}, final, evs); v != "" {
@@ -264,7 +270,7 @@ func render(c Case) string {
 
 func TestC08_Scripts(t *testing.T) {
 	pbt.Run(t, pbt.Config{Prop: "C08", Unit: "TestC08_Scripts", TrackCurrent: true,
-		Rule: "scripts of 3..40 steps over 1..3 publishers and one real subscriber (MaxAsyncConcurrency unlimited, 1, 2, k-1, k): publish 1..3 ads, announce the current head (in chain order), announce a head whose first block request fails, announce the head with sender information no sync can use (only a non-HTTP address), explicit sync, explicit sync of a fresh entries chain of 1..3 chunks with its own scoped hook, RemoveHandler of a publisher that is certainly idle (its handler with locks and pending state is dropped, latest-sync is kept), hold / open a publisher's gate (block requests park), so that announcement bursts arrive while a sync of the same publisher is held; after every step: at most one block request in flight per publisher, concurrently busy publishers <= the configured maximum; at exact quiescence with all gates open: every publisher's latest-sync is at or after its last announced head or an error notification for that head was delivered; every advertisement up to latest-sync was reported exactly once and none beyond; hook calls form whole newest-to-oldest runs; success notifications are in order with counts that add up; never more syncs handled than announcements + explicit syncs; each entries sync's scoped hook received exactly its own chunks, newest to oldest, and the general hook none of them. Non-trivial: an announcement arrived while a sync of the same publisher was held, an explicit sync overlapped another sync, or the semaphore was saturated; distinct by case.",
+		Rule: "scripts of 3..40 steps over 1..3 publishers and one real subscriber (MaxAsyncConcurrency unlimited, 1, 2, k-1, k): publish 1..3 ads, announce the current head (in chain order), announce a head whose first block request fails, announce the head with sender information no sync can use (only a non-HTTP address), explicit sync, explicit sync of a fresh entries chain of 1..3 chunks with its own scoped hook, RemoveHandler of a publisher that is certainly idle (its handler with locks and pending state is dropped, latest-sync is kept), let the virtual clock pass the idle-handler TTL (idle handlers are dropped; a handler with a parked sync must stay), hold / open a publisher's gate (block requests park), so that announcement bursts arrive while a sync of the same publisher is held; after every step: at most one block request in flight per publisher, concurrently busy publishers <= the configured maximum; at exact quiescence with all gates open: every publisher's latest-sync is at or after its last announced head or an error notification for that head was delivered; every advertisement up to latest-sync was reported exactly once and none beyond; hook calls form whole newest-to-oldest runs; success notifications are in order with counts that add up; never more syncs handled than announcements + explicit syncs; each entries sync's scoped hook received exactly its own chunks, newest to oldest, and the general hook none of them. Non-trivial: an announcement arrived while a sync of the same publisher was held, an explicit sync overlapped another sync, or the semaphore was saturated; distinct by case.",
 		Assumptions: []string{"announcements per publisher follow chain order (documented caller obligation); arrival timing varies", "while a gate-held sync coexists with goroutines waiting on a library mutex the harness settles heuristically (1 ms of stable activity); only 'nothing bad has happened' is asserted then, every 'has happened' assertion waits for exact quiescence"},
 	}, genCase, runCase(t))
 }
